@@ -49,7 +49,11 @@ fn build_addr(seed: u64, n_real: usize, j: usize, spec: &Value) -> Multiaddr {
         "unspecified" => format!("/ip4/0.0.0.0/tcp/{port}").parse().unwrap(),
         "unspecified6" => format!("/ip6/::/tcp/{port}").parse().unwrap(),
         "own_listen" => format!("/ip4/10.0.0.1/tcp/{}", node::port(1)).parse().unwrap(),
-        "ws" => format!("/ip4/{}/tcp/{port}/ws", ip4(host)).parse().unwrap(),
+        // (WebSocket addresses get their own port range: an attempt is attributed to an address
+        // by its socket)
+        "ws" => format!("/ip4/{}/tcp/{}/ws", ip4(host), port + 20_000).parse().unwrap(),
+        "real_ws" => return if j <= n_real { node::ws_full_addr(seed, j) } else { with_p2p(format!("/ip4/10.0.0.{}/tcp/{}/ws", j.min(250), port + 20_000).parse().unwrap(), p) },
+        "own_listen_ws" => format!("/ip4/10.0.0.1/tcp/{}/ws", node::ws_port(1)).parse().unwrap(),
         "udp_quic" => format!("/ip4/{}/udp/{port}/quic-v1", ip4(host)).parse().unwrap(),
         "trailing" => return with_p2p(format!("/ip4/{}/tcp/{port}", ip4(host)).parse().unwrap(), p).with(Protocol::Tcp(9)),
         "tcp_only" => format!("/tcp/{port}").parse().unwrap(),
@@ -73,11 +77,12 @@ fn socket_of(a: &Multiaddr) -> Option<SocketAddr> {
     }
 }
 
-/// (a) shape rule for a stored address of peer `p`.
-fn well_formed(a: &Multiaddr, p: &PeerId, own: &[Multiaddr]) -> Result<(), String> {
+/// (a) shape rule for a stored address of peer `p`; `ws`: the node also runs the WebSocket transport.
+fn well_formed(a: &Multiaddr, p: &PeerId, own: &[Multiaddr], ws: bool) -> Result<(), String> {
     let comps: Vec<Protocol> = a.iter().collect();
-    if comps.len() != 3 {
-        return Err(format!("{a}: expected exactly <host>/tcp/p2p"));
+    let is_ws = comps.len() == 4 && matches!(comps[2], Protocol::Ws(_));
+    if comps.len() != 3 && !(ws && is_ws) {
+        return Err(format!("{a}: expected exactly <host>/tcp/p2p{}", if ws { " or <host>/tcp/ws/p2p" } else { "" }));
     }
     match &comps[0] {
         Protocol::Ip4(i) if !i.is_unspecified() => {}
@@ -88,8 +93,8 @@ fn well_formed(a: &Multiaddr, p: &PeerId, own: &[Multiaddr]) -> Result<(), Strin
     if !matches!(comps[1], Protocol::Tcp(_)) {
         return Err(format!("{a}: no enabled transport can dial it"));
     }
-    match &comps[2] {
-        Protocol::P2p(id) => {
+    match comps.last() {
+        Some(Protocol::P2p(id)) => {
             if PeerId::try_from_multiaddr(a).as_ref() != Some(p) {
                 let _ = id;
                 return Err(format!("{a}: names another peer"));
@@ -97,11 +102,15 @@ fn well_formed(a: &Multiaddr, p: &PeerId, own: &[Multiaddr]) -> Result<(), Strin
         }
         _ => return Err(format!("{a}: does not end in /p2p")),
     }
-    let stripped: Multiaddr = a.iter().take(2).collect();
+    let stripped: Multiaddr = a.iter().take(comps.len() - 1).collect();
     if own.contains(&stripped) {
         return Err(format!("{a}: is one of the node's own listen addresses"));
     }
     Ok(())
+}
+
+fn is_ws_addr(a: &str) -> bool {
+    a.contains("/ws/")
 }
 
 impl Prop for C10 {
@@ -184,6 +193,28 @@ impl Prop for C10 {
             // a prefix of the score order that spans several score classes
             knobs["max_out"] = json!(*rng.pick(&[1u64, 2, 3, 4, 5, 8, 16, 30, 50]));
         }
+        {
+            // a third of the runs (independent stream): the node and the real peers also run the
+            // WebSocket transport; /ws addresses become storable and dialable, a dial by peer id
+            // hands each transport its share of the score order
+            let mut r = Rng::fork(seed, "c10-ws");
+            if r.chance(1, 3) {
+                knobs["transport_ws"] = json!(true);
+                knobs["ws_nodes"] = json!([1, 2, 3]);
+                for o in ops.iter_mut() {
+                    if let Some(specs) = o["addrs"].as_array_mut() {
+                        for sp in specs.iter_mut() {
+                            match r.below(8) {
+                                0 | 1 if sp["shape"] == "dead" => sp["shape"] = json!("ws"),
+                                2 if sp["shape"] == "real" => sp["shape"] = json!("real_ws"),
+                                3 if sp["shape"] == "own_listen" => sp["shape"] = json!("own_listen_ws"),
+                                _ => {}
+                            }
+                        }
+                    }
+                }
+            }
+        }
         json!({
             "property": "C10",
             "seed": seed,
@@ -212,6 +243,7 @@ impl Prop for C10 {
             let n_real = case["n_real"].as_u64().unwrap_or(3) as usize;
             let knobs = case["node_knobs"].clone();
             let max_out = knobs["max_out"].as_u64().map(|x| x as usize);
+            let ws_on = knobs["transport_ws"].as_bool().unwrap_or(false);
             // peers 2..n_real: real nodes that just accept connections
             for i in 2..=n_real {
                 node::CURRENT_NODE.with(|c| c.set(i));
@@ -243,7 +275,7 @@ impl Prop for C10 {
             });
             node::CURRENT_NODE.with(|c| c.set(0));
             net.host_down_opt(node_ip(n_real + 2), true, false);
-            let own: Vec<Multiaddr> = vec![node::listen_addr(1)];
+            let own: Vec<Multiaddr> = if ws_on { vec![node::listen_addr(1), node::ws_listen_addr(1)] } else { vec![node::listen_addr(1)] };
             let h = handle.clone();
             let net2 = net.clone();
             handle.spawn(1, "driver", async move {
@@ -272,7 +304,7 @@ impl Prop for C10 {
                                         h.violation("c10:unoffered-address-stored", format!("step {step}: {a} appeared for n{j} but was not offered"));
                                         return;
                                     }
-                                    if let Err(e) = well_formed(&a.parse().unwrap(), &p, &own) {
+                                    if let Err(e) = well_formed(&a.parse().unwrap(), &p, &own, ws_on) {
                                         h.violation("c10:illegal-address-stored", format!("step {step}: stored for n{j}: {e}"));
                                         return;
                                     }
@@ -356,7 +388,9 @@ impl Prop for C10 {
                                     Err(_) => break,
                                     Ok(None) => break,
                                     Ok(Some(Litep2pEvent::ConnectionEstablished { endpoint, .. })) => {
-                                        established = Some(with_p2p(endpoint.address().clone(), p).to_string());
+                                        // (a WebSocket endpoint address already ends in the peer id)
+                                        let ea = endpoint.address().clone();
+                                        established = Some(if matches!(ea.iter().last(), Some(Protocol::P2p(_))) { ea.to_string() } else { with_p2p(ea, p).to_string() });
                                         concluded_at = Some(tokio::time::Instant::now());
                                     }
                                     Ok(Some(Litep2pEvent::DialFailure { address, .. })) => {
@@ -379,8 +413,10 @@ impl Prop for C10 {
                             let attempts: Vec<SocketAddr> = net2.st.lock().unwrap().connect_log[log_from..].iter().filter(|c| c.1 == node_ip(1)).map(|c| c.2).collect();
                             // map attempts to stored addresses
                             let by_socket: BTreeMap<SocketAddr, (String, i32)> = s0.iter().filter_map(|(a, s)| socket_of(&a.parse().unwrap()).map(|so| (so, (a.clone(), *s)))).collect();
+                            // every transport is handed its share of the score order and works
+                            // through it on its own: order and duplicates are judged per transport
                             let mut seen = BTreeSet::new();
-                            let mut last_score = i32::MAX;
+                            let mut last_score: BTreeMap<bool, i32> = BTreeMap::new();
                             let mut attempted: BTreeSet<String> = BTreeSet::new();
                             for so in attempts.iter() {
                                 let Some((a, s)) = by_socket.get(so) else {
@@ -391,12 +427,17 @@ impl Prop for C10 {
                                     h.violation("c10:address-dialed-twice", format!("step {step}: dial(n{j}) tried {a} twice"));
                                     return;
                                 }
-                                if *s > last_score {
-                                    h.violation("c10:dial-order-not-by-score", format!("step {step}: dial(n{j}) tried {a} (score {s}) after an address with the lower score {last_score}"));
+                                let t = is_ws_addr(a);
+                                let last = *last_score.get(&t).unwrap_or(&i32::MAX);
+                                if *s > last {
+                                    h.violation("c10:dial-order-not-by-score", format!("step {step}: dial(n{j}) tried {a} (score {s}) after an address of the same transport with the lower score {last}"));
                                     return;
                                 }
-                                last_score = *s;
+                                last_score.insert(t, *s);
                                 attempted.insert(a.clone());
+                            }
+                            if attempts.iter().any(|so| by_socket.get(so).is_some_and(|(a, _)| is_ws_addr(a))) {
+                                h.probe("c10-websocket-address-dialed");
                             }
                             if let Some(m) = max_out {
                                 if attempts.len() > m {
@@ -404,13 +445,21 @@ impl Prop for C10 {
                                     return;
                                 }
                             }
-                            // addresses that were not tried must not outrank the tried ones
-                            let min_attempted = attempted.iter().map(|a| s0[a]).min();
-                            if let Some(m) = min_attempted {
-                                for (a, s) in s0.iter() {
-                                    if !attempted.contains(a) && *s > m {
-                                        h.violation("c10:better-address-skipped", format!("step {step}: dial(n{j}) skipped {a} (score {s}) but tried an address with score {m}"));
-                                        return;
+                            // addresses that were not tried must not outrank the tried ones: within
+                            // a transport always (what it tried is a prefix of its share: it stops at
+                            // its first success and at the overall dial deadline of twice the
+                            // connection-open time-out); across transports only when the dial failed
+                            // as a whole before that deadline (then every address handed out was tried)
+                            let deadline = Duration::from_millis(2 * knobs["conn_open_timeout_ms"].as_u64().unwrap_or(1000)).saturating_sub(Duration::from_millis(50));
+                            let uncut = established.is_none() && concluded_at.is_some_and(|c| c.saturating_duration_since(start) < deadline);
+                            for t in [false, true] {
+                                let min_attempted = attempted.iter().filter(|a| is_ws_addr(a) == t).map(|a| s0[a]).min();
+                                if let Some(m) = min_attempted {
+                                    for (a, s) in s0.iter() {
+                                        if !attempted.contains(a) && *s > m && (is_ws_addr(a) == t || uncut) {
+                                            h.violation("c10:better-address-skipped", format!("step {step}: dial(n{j}) skipped {a} (score {s}) but tried an address with score {m}"));
+                                            return;
+                                        }
                                     }
                                 }
                             }
